@@ -153,6 +153,28 @@ func c16Check(h []byte, via string) (kind, msg string) {
 				}
 			}
 		}
+	case "bufio-prefix": // a *bufio.Reader from which the caller has already taken a prefix: the whole header sits in its buffer
+		for _, off := range []int{1, 7, 100, 1000} {
+			br := bufio.NewReaderSize(bytes.NewReader(append(bytes.Repeat([]byte{0x5A}, off), prof...)), 4096)
+			_, _ = br.Discard(off)
+			if br.Buffered() < 128 {
+				_, _ = br.Peek(128)
+			}
+			p, err, pan = readProfile(br)
+			if pan != nil {
+				break
+			}
+			if e.SignatureOK {
+				if err != nil || p == nil {
+					break
+				}
+				if f, d := c16Compare(e, p); f != "" {
+					return "field/" + f, d + fmt.Sprintf(" (header %x behind a bufio.Reader from which %d bytes had been taken)", h, off)
+				}
+			} else if err == nil {
+				break // accepted without the signature: reported below
+			}
+		}
 	case "short-reads":
 		p, err, pan = readProfile(shortByteReader{src.New(prof).Sizes(1, 2, 3, 5)})
 	case "bytes.Reader@offset": // a reader that has already been consumed up to where the profile starts
@@ -534,7 +556,7 @@ func runC16(r *core.Run) {
 		allVias = append(allVias, h)
 	}
 	for _, h := range allVias {
-		for _, via := range []string{"ReadProfile", "png", "bufio@4000", "short-reads", "bytes.Buffer", "second-in-reader", "data-reused", "data-asked-thrice", "same-reader-after-rejected"} {
+		for _, via := range []string{"ReadProfile", "png", "bufio@4000", "bufio-prefix", "short-reads", "bytes.Buffer", "second-in-reader", "data-reused", "data-asked-thrice", "same-reader-after-rejected"} {
 			if kind, msg := c16Check(h, via); kind != "" {
 				r.Violate("header", kind+"/"+via, msg, c16Case{Header: hex.EncodeToString(h), Via: via})
 			}
@@ -559,7 +581,7 @@ func runC16(r *core.Run) {
 		}
 		r.AddEvals(1)
 		if i%17 == 0 {
-			for _, via := range []string{"png", "bufio@4000", "short-reads", "bytes.Reader@offset", "strings.Reader@offset", "bytes.Buffer", "section", "second-in-reader", "after-rejected", "data-reused", "reader-reused", "second-in-custom-reader", "data-asked-thrice", "second-after-odd-length", "same-reader-after-rejected"} {
+			for _, via := range []string{"png", "bufio@4000", "short-reads", "bytes.Reader@offset", "strings.Reader@offset", "bytes.Buffer", "section", "second-in-reader", "after-rejected", "data-reused", "reader-reused", "second-in-custom-reader", "data-asked-thrice", "second-after-odd-length", "same-reader-after-rejected", "bufio-prefix"} {
 				if kind, msg := c16Check(h, via); kind != "" {
 					r.Violate("header", kind+"/"+via, msg, c16Case{Header: hex.EncodeToString(h), Via: via})
 				}
